@@ -74,14 +74,14 @@ Qed.
 
 (* ASCII text is valid UTF-8 *)
 Lemma ascii_valid_aux : forall f l,
-  (length l <= f)%nat -> forallb (fun b => b <? 128) l = true -> Payload.utf8_valid_aux f l = true.
+  (length l <= f)%nat -> forallb (fun b => b <? 128) l = true -> utf8_valid_aux f l = true.
 Proof.
   induction f as [|f IH]; intros l Hl Ha.
   - destruct l; [reflexivity| cbn in Hl; lia].
   - destruct l as [|b r]; [reflexivity|]. cbn [forallb] in Ha. apply andb_true_iff in Ha. destruct Ha as [Hb Hr].
-    cbn [Payload.utf8_valid_aux]. rewrite Hb. apply IH; [cbn in Hl; lia| exact Hr].
+    cbn [utf8_valid_aux]. rewrite Hb. apply IH; [cbn in Hl; lia| exact Hr].
 Qed.
-Lemma ascii_valid l : forallb (fun b => b <? 128) l = true -> Payload.utf8_valid l = true.
+Lemma ascii_valid l : forallb (fun b => b <? 128) l = true -> utf8_valid l = true.
 Proof. intros H. apply ascii_valid_aux; [apply Nat.le_refl| exact H]. Qed.
 
 Lemma plain_ascii l : forallb plain l = true -> forallb (fun b => b <? 128) l = true.
